@@ -20,6 +20,7 @@ func init() {
 	registerScenario("D_fwd_unknown_stream", dFwdUnknownStream)
 	registerScenario("D_idata_fragment_after_forward", dIDataFragmentAfterForward)
 	registerScenario("D_pr_after_peer_reset", dPRAfterPeerReset)
+	registerScenario("D_deadline_rearm", dDeadlineRearm)
 }
 
 func directedConfig(w *world, interleaving bool) *runConfig {
@@ -268,3 +269,45 @@ func dPRAfterPeerReset(w *world) {
 	}
 	runXfer(w, x, mon, false, false)
 }
+
+// dDeadlineRearm: read deadlines that expire at the very instant data arrives and the reader
+// re-arms the deadline; a seeded schedule decides the order of the timer goroutine, the
+// packet and the reader (witness of the fixed stale-deadline race; run over many seeds).
+func dDeadlineRearm(w *world) {
+	cfg := directedConfig(w, false)
+	for i := range cfg.Fault {
+		cfg.Fault[i].LatencyUs = 5000
+	}
+	cfg.YieldPPM = pick[uint32](w.ctape, 0, 20000, 200000, 500000)
+	cfg.SwitchPPM = pick[uint32](w.ctape, 200000, 1000000, 1000000)
+	x, mon, ok := directedStart(w, cfg)
+	if !ok {
+		return
+	}
+	w.params["phase_ms"] = 400
+	w.params["deadline_ms"] = 5
+	d := &xferDir{sid: 0, from: 0, sizes: make([]int, 12), gaps: make([]time.Duration, 12), preopen: true, deadlines: true}
+	for i := range d.sizes {
+		d.sizes[i] = 1 + w.wtape.intn(300)
+		d.gaps[i] = 5 * time.Millisecond
+	}
+	x.dirs = []*xferDir{d}
+	runXfer(w, x, mon, false, false)
+}
+
+// dEmptyWrite: an empty write between two messages must not disturb the later one (C18).
+func dEmptyWrite(w *world) {
+	x, mon, ok := directedStart(w, directedConfig(w, w.ctape.intn(2) == 0))
+	if !ok {
+		return
+	}
+	w.params["phase_ms"] = 300
+	d := &xferDir{sid: 3, from: 0, sizes: []int{10, 20, 30}, preopen: true}
+	x.dirs = []*xferDir{d}
+	// the writer of x.start() is not used here: write 10, empty, 20, 30 by hand through oddWrite's path
+	d.oddWrites = true
+	w.params["odd_force"] = 2
+	runXfer(w, x, mon, false, false)
+}
+
+func init() { registerScenario("D_empty_write", dEmptyWrite) }
